@@ -53,7 +53,7 @@ def plan_jobs(mod, tier, seed, ncpu, only_cases=None, hashseed=None):
     return jobs
 
 
-def run_jobs(prop, tier, seed, jobs, ncpu, timeout, soft, repo):
+def run_jobs(prop, tier, seed, jobs, ncpu, timeout, soft, repo, case_timeout=120.0):
     work = os.path.join(HERE, ".work", "%s-%s-%d-%d" % (prop, tier, seed, os.getpid()))
     shutil.rmtree(work, ignore_errors=True)
     os.makedirs(work)
@@ -74,7 +74,7 @@ def run_jobs(prop, tier, seed, jobs, ncpu, timeout, soft, repo):
             e["PYTHONHASHSEED"] = str(j["hashseed"])
             cmd = [PY, "-X", "faulthandler", os.path.join(HERE, "vmon", "worker.py"), "--prop", prop,
                    "--tier", tier, "--seed", str(seed), "--wid", str(j["wid"]), "--cases", j["cases"],
-                   "--out", out, "--soft-deadline", str(soft)]
+                   "--out", out, "--soft-deadline", str(soft), "--case-timeout", str(case_timeout)]
             log = open(os.path.join(work, "w%d.log" % j["wid"]), "w")
             p = subprocess.Popen(cmd, env=e, stdout=log, stderr=subprocess.STDOUT, cwd=HERE)
             running.append((p, j, out, log, time.time()))
@@ -122,7 +122,10 @@ def check(prop, tier, seed, replay=None, repo=None, quiet=False):
     jobs = plan_jobs(mod, tier, seed, ncpu, only, hs)
     timeout = getattr(mod, "TIMEOUT", DEFAULT_TIMEOUT)[tier]
     soft = getattr(mod, "SOFT_DEADLINE", DEFAULT_SOFT)[tier]
-    results, failures, wall = run_jobs(prop, tier, seed, jobs, ncpu, timeout, soft, repo)
+    case_timeout = getattr(mod, "CASE_TIMEOUT", {"quick": 120.0, "thorough": 600.0})[tier]
+    if os.environ.get("VERIF_CASE_TIMEOUT"):        # only the mutant self-test shortens it
+        case_timeout = float(os.environ["VERIF_CASE_TIMEOUT"])
+    results, failures, wall = run_jobs(prop, tier, seed, jobs, ncpu, timeout, soft, repo, case_timeout)
 
     # ---- aggregate ------------------------------------------------------------------------------------------
     C = collections.Counter
